@@ -130,6 +130,8 @@ func ParseXML(data []byte) (*Node, []XMLProblem) {
 			probs = append(probs, XMLProblem{rule, fmt.Sprintf(f, a...), where()})
 		}
 	}
+	// a byte order mark may stand at the very start of the entity and nowhere else in the prolog
+	data = bytes.TrimPrefix(data, []byte("\xef\xbb\xbf"))
 	dec := xml.NewDecoder(bytes.NewReader(data))
 	dec.Strict = true
 	type frame struct {
@@ -158,6 +160,7 @@ func ParseXML(data []byte) (*Node, []XMLProblem) {
 		return "", false
 	}
 	for {
+		tokStart := dec.InputOffset()
 		tok, err := dec.RawToken()
 		if err == io.EOF {
 			break
@@ -239,6 +242,12 @@ func ParseXML(data []byte) (*Node, []XMLProblem) {
 				return root, probs
 			}
 			stack = stack[:len(stack)-1]
+		case xml.ProcInst:
+			// the XML declaration is only allowed as the very first thing of the entity; the target "xml" (in any case) is
+			// reserved everywhere else
+			if strings.EqualFold(t.Target, "xml") && tokStart != 0 {
+				add("xml-wellformed", "XML declaration (or a processing instruction with the reserved target %q) at offset %d, not at the start of the part", t.Target, tokStart)
+			}
 		case xml.CharData:
 			if len(stack) == 0 {
 				if len(bytes.TrimSpace(t)) != 0 {
